@@ -184,6 +184,14 @@ func (g *GW) BrokerClose() {
 
 func (g *GW) Shutdown() { g.Cancel(); g.S.Run() }
 
+// StallBroker: the broker stops (or resumes) reading; with the buffers full the gateway's writes to it block.
+func (g *GW) StallBroker(on bool) {
+	if g.mqGW != nil {
+		g.mqGW.SetWriteStall(on)
+	}
+	g.S.Run()
+}
+
 // InjectClient / InjectBroker queue input without running (E2 scenarios).
 func (g *GW) InjectClient(b []byte) { g.snGW.Inject(b) }
 func (g *GW) InjectBroker(b []byte) {
@@ -270,6 +278,8 @@ const (
 	EvShutdown    = "shutdown|X:shutdown"
 	EvBrokerClose = "broker-closes|X:bclose"
 	EvTimer       = "next-timer|T:next"
+	EvStall       = "broker-stops-reading|X:stall"
+	EvUnstall     = "broker-reads-again|X:unstall"
 )
 
 func EvAdvance(d time.Duration) string { return fmt.Sprintf("advance %v|T:%d", d, int64(d)) }
@@ -316,6 +326,10 @@ func (g *GW) applyOne(body string) error {
 		g.Shutdown()
 	case body == "X:bclose":
 		g.BrokerClose()
+	case body == "X:stall":
+		g.StallBroker(true)
+	case body == "X:unstall":
+		g.StallBroker(false)
 	case body == "T:next":
 		g.S.FireNext()
 	case strings.HasPrefix(body, "T:"):
